@@ -151,18 +151,19 @@ Record store := Store {
   s_res : table;
   s_idx : N;                         (* metadata row "index"; 2 when the row is absent *)
   s_vsn : N;                         (* Backend.vsn *)
-  s_queue : list batch;              (* EventPublisher.publishCh *)
+  s_stale : nat;                     (* batches at the head of publishCh that carry an old generation: queued before a restore *)
+  s_queue : list batch;              (* EventPublisher.publishCh: the batches of the current generation *)
   s_bufs : list (subject * tbuf);    (* EventPublisher.topicBuffers *)
   s_cache : list (subject * snapshot);   (* EventPublisher.snapCache *)
   s_watches : list watch
 }.
 
-Definition init : store := Store [] 2 0 [] [] [] [].
+Definition init : store := Store [] 2 0 0 [] [] [] [].
 
 Definition set_res (st : store) (t : table) (i : N) (q : list batch) : store :=
-  Store t i (s_vsn st) q (s_bufs st) (s_cache st) (s_watches st).
+  Store t i (s_vsn st) (s_stale st) q (s_bufs st) (s_cache st) (s_watches st).
 Definition set_vsn (st : store) (v : N) : store :=
-  Store (s_res st) (s_idx st) v (s_queue st) (s_bufs st) (s_cache st) (s_watches st).
+  Store (s_res st) (s_idx st) v (s_stale st) (s_queue st) (s_bufs st) (s_cache st) (s_watches st).
 
 Inductive err := ENotFound | ECAS | EWrongUid | EWatchClosed | EOther.
 
@@ -265,11 +266,17 @@ Definition publish_batch (b : batch) (bufs : list (subject * tbuf)) : list (subj
                 | g => (fst e, TBuf (b_refs (snd e)) (b_items (snd e) ++ [g]))
                 end) bufs.
 
+(* one receive from publishCh + publishBatch: a batch whose generation is not the publisher's current
+   one (it was queued before a restore) is dropped; such batches are all ahead of the live ones *)
 Definition publish_one (st : store) : store * out :=
-  match s_queue st with
-  | [] => (st, OutBool false)
-  | b :: q => (Store (s_res st) (s_idx st) (s_vsn st) q (publish_batch b (s_bufs st)) (s_cache st) (s_watches st),
-               OutBool true)
+  match s_stale st with
+  | S k => (Store (s_res st) (s_idx st) (s_vsn st) k (s_queue st) (s_bufs st) (s_cache st) (s_watches st), OutBool true)
+  | O =>
+    match s_queue st with
+    | [] => (st, OutBool false)
+    | b :: q => (Store (s_res st) (s_idx st) (s_vsn st) (s_stale st) q (publish_batch b (s_bufs st)) (s_cache st) (s_watches st),
+                 OutBool true)
+    end
   end.
 
 (* watchSnapshot: the query is rebuilt from the subject (no name prefix) *)
@@ -314,7 +321,7 @@ Definition watch_open (st : store) (q : query) : store * out :=
               (sn, s_cache st ++ [(s, sn)])
     end in
   let w := Watch s q WOpen false snap 0 [] 0 in
-  (Store (s_res st) (s_idx st) (s_vsn st) (s_queue st) bufs cache (s_watches st ++ [w]),
+  (Store (s_res st) (s_idx st) (s_vsn st) (s_stale st) (s_queue st) bufs cache (s_watches st ++ [w]),
    OutWatch (List.length (s_watches st))).
 
 (* what a subscription reads: the snapshot batch, the framing item, then the topic buffer from
@@ -357,7 +364,7 @@ Fixpoint scan_raws (q : query) (widx : N) (raws : list raw) (n : nat)
   end.
 
 Definition set_watch (st : store) (n : nat) (w : watch) : store :=
-  Store (s_res st) (s_idx st) (s_vsn st) (s_queue st) (s_bufs st) (s_cache st)
+  Store (s_res st) (s_idx st) (s_vsn st) (s_stale st) (s_queue st) (s_bufs st) (s_cache st)
         (firstn n (s_watches st) ++ w :: skipn (S n) (s_watches st)).
 
 Definition watch_items (st : store) (w : watch) : list batch :=
@@ -404,19 +411,19 @@ Definition watch_close (st : store) (n : nat) : store * out :=
            | None => (st1, OutOk)
            | Some b =>
                if Nat.eqb (b_refs b) 1
-               then (Store (s_res st1) (s_idx st1) (s_vsn st1) (s_queue st1)
+               then (Store (s_res st1) (s_idx st1) (s_vsn st1) (s_stale st1) (s_queue st1)
                            (buf_del (w_subj w) (s_bufs st1)) (cache_del (w_subj w) (s_cache st1)) (s_watches st1), OutOk)
-               else (Store (s_res st1) (s_idx st1) (s_vsn st1) (s_queue st1)
+               else (Store (s_res st1) (s_idx st1) (s_vsn st1) (s_stale st1) (s_queue st1)
                            (buf_set (w_subj w) (TBuf (b_refs b - 1) (b_items b)) (s_bufs st1)) (s_cache st1) (s_watches st1), OutOk)
            end
   end.
 
-(* Restoration.Apply* + Commit: a fresh database (no metadata row: index 2 again) holding the
-   given rows, then RefreshTopic(eventTopic) = forceEvictByTopicLocked (drop the topic's cached
-   snapshots AND, since 2bf672d, its topic buffers) and force-close every subscription.
-   publishCh is NOT touched: the generation that makes publishBatch drop stale batches (949dae4) is
-   only advanced by RefreshAllTopics, which the resource store never calls, so in this model the
-   generation is constant and publishBatch = publishEvent.
+(* Restoration.Apply* + Commit (d82b299): a fresh database (no metadata row: index 2 again) holding the
+   given rows, installed under eventLock (no writer is between its commit and its Publish), then
+   RefreshAllTopics: the publisher's generation is advanced, so every batch still in publishCh is
+   dropped when it is received (949dae4; [s_stale] counts them, [s_queue] keeps the live ones, which
+   are all behind them); the cached snapshots and (2bf672d) the topic buffers are dropped and every
+   subscription is force-closed.
    A watch that existed before the restore keeps a pointer to its dropped buffer: its freeBuf only
    decrements that orphan's counter (the map entries are removed only "if they still belong to this
    buffer"), so it can no longer touch the maps - modelled by setting [w_freed].
@@ -431,7 +438,7 @@ Definition force_close (w : watch) : watch :=
         true (w_snap w) (w_pos w) (w_events w) (w_idx w).
 
 Definition restore (st : store) (l : list resource) : store * out :=
-  (Store (restore_table l) 2 (s_vsn st) (s_queue st) [] [] (map force_close (s_watches st)), OutOk).
+  (Store (restore_table l) 2 (s_vsn st) (s_stale st + List.length (s_queue st)) [] [] [] (map force_close (s_watches st)), OutOk).
 
 Inductive op :=
 | OWrite (r : resource)                       (* Backend.WriteCAS; r_version r is the version presented *)
@@ -462,7 +469,7 @@ Definition step (st : store) (o : op) : store * out :=
   | OPublish => publish_one st
   | ORestore l => restore st l
   | OSnapshot => (st, OutList (s_res st))
-  | OEvict q => (Store (s_res st) (s_idx st) (s_vsn st) (s_queue st) (s_bufs st)
+  | OEvict q => (Store (s_res st) (s_idx st) (s_vsn st) (s_stale st) (s_queue st) (s_bufs st)
                        (cache_del (watch_subject q) (s_cache st)) (s_watches st), OutOk)
   end.
 
